@@ -198,8 +198,8 @@ def norm(t, pol=True):
                 t = t["o"]
                 pol = not pol
                 continue
-            if fn == "operator bool" and "o" in t:
-                t = t["o"]
+            if (fn == "operator bool" or (fn.startswith("operator ") and fn[9:10].isalpha() and not t.get("a"))) and "o" in t:
+                t = t["o"]      # conversion operator (operator bool, std::atomic<T>::operator T): test the object itself
                 continue
             if fn in _NE_CALLS and "o" in t and len(t.get("a", [])) == 1:
                 t = _mkbin("==", t["o"], t["a"][0])
